@@ -77,6 +77,12 @@ type c16world struct {
 	// model
 	expect map[string][]byte // file name (relative) -> exact content
 	listed map[string][]byte // pointers a scan must yield -> content
+	// one reader may be held open across later operations (a query in progress): it must keep
+	// returning the bytes its file had when it was opened, whatever happens to the name
+	reader     io.ReadSeekCloser
+	readerPtr  string
+	readerWant []byte
+	gone       map[string]bool // tombstoned pointers whose name was not drawn again: OpenFile must fail
 }
 
 func newC16World(nw int) (*c16world, error) {
@@ -84,7 +90,7 @@ func newC16World(nw int) (*c16world, error) {
 	if err != nil {
 		return nil, err
 	}
-	w := &c16world{dir: dir, expect: map[string][]byte{}, listed: map[string][]byte{}}
+	w := &c16world{dir: dir, expect: map[string][]byte{}, listed: map[string][]byte{}, gone: map[string]bool{}}
 	w.rec = vos.Record(dir)
 	w.store = bs.NewFileSystemDataStore(dir)
 	w.store.VerifSetFileNameDraw(func() string {
@@ -108,6 +114,10 @@ func newC16World(nw int) (*c16world, error) {
 var c16Closed atomic.Int64
 
 func (w *c16world) close() {
+	if w.reader != nil {
+		w.reader.Close()
+		w.reader = nil
+	}
 	w.rec.Stop()
 	for _, wr := range w.writers {
 		wr.wc = nil
@@ -131,7 +141,13 @@ func (w *c16world) enabled() []c16op {
 		}
 		return false
 	}
+	if w.reader != nil {
+		ops = append(ops, c16op{"release", 0, ""})
+	}
 	for i, wr := range w.writers {
+		if w.reader == nil && (wr.state == "closed" || strings.HasPrefix(wr.state, "closed+")) && !reused(i) {
+			ops = append(ops, c16op{"hold", i, ""})
+		}
 		if (strings.HasPrefix(wr.state, "aborted") || wr.state == "closefailed" || strings.HasPrefix(wr.state, "closed+") || wr.state == "closed") && reused(i) {
 			continue
 		}
@@ -195,6 +211,7 @@ func (w *c16world) apply(op c16op, payloads map[string][]byte) error {
 			return fmt.Errorf("CreateFile returned pointer %s whose name collides with existing artifacts %v", rel(p), sortedNames(existing))
 		}
 		*wr = c16writer{wc: wc, ptr: p, state: "open"}
+		delete(w.gone, p)
 		w.expect[base+".dat"] = []byte{}
 		w.expect[base+".tmp"] = []byte{}
 	case "write":
@@ -236,6 +253,23 @@ func (w *c16world) apply(op c16op, payloads map[string][]byte) error {
 		delete(w.expect, base+".tmp")
 		delete(w.expect, base+".dat")
 		wr.state = "aborted"
+	case "hold":
+		h, err := w.store.OpenFile(ctx, []byte(wr.ptr))
+		if err != nil {
+			return fmt.Errorf("OpenFile(%s): %v", rel(wr.ptr), err)
+		}
+		w.reader, w.readerPtr = h, wr.ptr
+		w.readerWant = append([]byte{}, w.expect[rel(wr.ptr)]...)
+	case "release":
+		b, err := io.ReadAll(w.reader)
+		cerr := w.reader.Close()
+		if err != nil || !bytes.Equal(b, w.readerWant) {
+			return fmt.Errorf("a reader opened on %s before the later operations returns %d bytes (err %v), the file held %d when it was opened", rel(w.readerPtr), len(b), err, len(w.readerWant))
+		}
+		if cerr != nil {
+			return fmt.Errorf("closing the held reader on %s: %v", rel(w.readerPtr), cerr)
+		}
+		w.reader = nil
 	case "again":
 		// the return value is the writer's business; the directory must stay as it is
 		switch op.arg {
@@ -257,6 +291,7 @@ func (w *c16world) apply(op c16op, payloads map[string][]byte) error {
 		delete(w.expect, base+".tmp")
 		delete(w.expect, base+".dat")
 		delete(w.listed, wr.ptr)
+		w.gone[wr.ptr] = true
 		*wr = c16writer{} // the slot can create again
 	}
 	return nil
@@ -316,6 +351,12 @@ func (w *c16world) check() error {
 			return fmt.Errorf("scan lists %s which is not a successfully closed, untombstoned bloom file", filepath.Base(p))
 		}
 	}
+	for p := range w.gone {
+		if h, err := w.store.OpenFile(context.Background(), []byte(p)); err == nil {
+			h.Close()
+			return fmt.Errorf("OpenFile(%s) succeeds although the file was tombstoned and its name has not been drawn again", filepath.Base(p))
+		}
+	}
 	for p, want := range w.listed {
 		h, err := w.store.OpenFile(context.Background(), []byte(p))
 		if err != nil {
@@ -345,6 +386,16 @@ func (w *c16world) key() string {
 		fmt.Fprintf(&sb, "|%s,%s,%d", wr.state, filepath.Base(wr.ptr), len(wr.written))
 	}
 	fmt.Fprintf(&sb, "|f%d", w.fresh)
+	if w.reader != nil {
+		h := sha256.Sum256(w.readerWant)
+		fmt.Fprintf(&sb, "|r:%s:%x", filepath.Base(w.readerPtr), h[:6])
+	}
+	gone := make([]string, 0, len(w.gone))
+	for p := range w.gone {
+		gone = append(gone, filepath.Base(p))
+	}
+	sort.Strings(gone)
+	fmt.Fprintf(&sb, "|g:%s", strings.Join(gone, ","))
 	return sb.String()
 }
 
@@ -444,6 +495,6 @@ func init() {
 			}
 			return cs
 		},
-		Rule: "breadth-first search over call sequences of 2 (quick) / 3 (thorough) writer slots: CreateFile with a scripted name draw (n0/n00 — one name a proper prefix of the other — so every creation can collide with a committed, in-progress, failed-close or aborted name and must redraw), Write(valid bloom file A/B | garbage), Close, a second Close / an Abort / a Write on a finished writer, Close failing at fsync/rename, Abort, TombstoneFile after the writer finished, slot reuse after tombstone; depth 7 / 8, states deduplicated by (directory contents, writer states); after every step the real directory must equal the map model byte for byte, the scan must list exactly the valid successfully-closed untombstoned files and OpenFile must return the written bytes",
+		Rule: "breadth-first search over call sequences of 2 (quick) / 3 (thorough) writer slots: CreateFile with a scripted name draw (n0/n00 — one name a proper prefix of the other — so every creation can collide with a committed, in-progress, failed-close or aborted name and must redraw), Write(valid bloom file A/B | garbage), Close, a second Close / an Abort / a Write on a finished writer, Close failing at fsync/rename, Abort, TombstoneFile after the writer finished, slot reuse after tombstone, one reader opened on a published file and held across later operations (it must keep returning the bytes of its file), tombstoned pointers must not open; depth 7 / 8, states deduplicated by (directory contents, writer states); after every step the real directory must equal the map model byte for byte, the scan must list exactly the valid successfully-closed untombstoned files and OpenFile must return the written bytes",
 	}
 }
